@@ -3,7 +3,7 @@
 from __future__ import annotations
 
 from .common import *  # noqa: F403
-from ..astutil import assignments_to, iter_stmts
+from ..astutil import assignments_to, iter_stmts, const_str
 from ..loader import ancestors
 from ..cfg import GENERIC, handler_classes, match_handler
 
@@ -956,3 +956,50 @@ def forbid_each_property_rule(chk: Check, rule: str, what: str) -> None:
                 chk.violation(rule, fn, construct, "; ".join(why), fn.loc(c))
     if n == 0:
         chk.undecided(rule, conv, "calls of forbid_properties", "none found", conv)
+
+
+def lazy_field_single_writer_rule(chk: Check, rule: str, fields: dict[str, str | None], what: str) -> None:
+    """DERIVED-FIELD: `if not hasattr(self, "_f"): self._f = g(self.<source>)` memoises a value that is a function of the
+    object's own state; every clone recomputes it from the same source.  A second writer (a loader pre-setting it, a
+    helper patching it) makes the instance disagree with its own source - and with its clones."""
+    chk.rule(rule, f"DERIVED-FIELD({what}): a lazily computed field (`if not hasattr(self, '_f'): self._f = g(self.src)`) has ONE writer - its getter - and is computed from the object's own source; a second store into it makes this instance use something else than what it (and every clone, which recomputes) was loaded from", floor=len(fields))
+    P = chk.project
+    for ref, source in fields.items():
+        getter = P.func(ref)
+        lazy = None
+        for n in walk_body(getter.node):
+            if isinstance(n, ast.If):
+                m = [c for c in ast.walk(n.test) if isinstance(c, ast.Call) and isinstance(c.func, ast.Name) and c.func.id == "hasattr" and len(c.args) == 2 and unparse(c.args[0]) == "self" and const_str(c.args[1])]
+                if m:
+                    lazy = const_str(m[0].args[1])
+                    break
+        if lazy is None:
+            chk.undecided(rule, getter, "lazy field", "`if not hasattr(self, '_f')` pattern not found", getter.loc())
+            continue
+        own = [a for a in walk_body(getter.node) if isinstance(a, ast.Assign) and any(unparse(t) == f"self.{lazy}" for t in a.targets)]
+        construct = f"{lazy}: computed in {getter.qualname.partition(':')[2]} from {source}"
+        if not own:
+            chk.undecided(rule, getter, construct, "store not found in the getter", getter.loc())
+        elif not source:
+            chk.ok(rule, getter, f"{lazy}: stored by its getter", "", getter.loc(own[0]))
+        else:
+            forms = set(canon(getter, own[0].value))
+            chk.decide(True if any(source in x for x in forms) else None, rule, getter, construct, "", getter.loc(own[0]))
+        others = []
+        for f in P.all_functions():
+            if f is getter or isinstance(f.node, ast.Lambda):
+                continue
+            for a in walk_body(f.node):
+                tg = a.targets if isinstance(a, ast.Assign) else ([a.target] if isinstance(a, (ast.AugAssign, ast.AnnAssign)) else [])
+                for t in tg:
+                    if isinstance(t, ast.Attribute) and t.attr == lazy:
+                        others.append((f, a))
+                if isinstance(a, ast.Expr) and isinstance(a.value, ast.Call) and isinstance(a.value.func, ast.Name) and a.value.func.id == "setattr" and len(a.value.args) == 3 and const_str(a.value.args[1]) == lazy:
+                    others.append((f, a))
+        construct = f"{lazy}: no writer besides its getter"
+        if not others:
+            chk.ok(rule, getter, construct, "", getter.loc())
+        for f, a in others:
+            chk.violation(rule, f, construct,
+                          f"`{unparse(a, 70)}` pre-sets the lazily derived field: this instance no longer uses what `{source or "the object's own state"}` describes, while every clone (include / exclude / parametrize) recomputes it - the same loaded schema behaves differently depending on which object is asked",
+                          f.loc(a))
